@@ -450,7 +450,12 @@ func c04Impl(c lib.Case) []string {
 	defer c20HookMu.Unlock()
 	h := strings.Fields(c.Header)
 	out := make([]string, 0, len(c.Ops))
-	if len(h) != 6 {
+	mustHit := len(h) == 7 && h[6] == "musthit"
+	window := 50 * time.Millisecond // how long to wait for the loop to be where a timing op wants it
+	if mustHit {
+		window = 3 * time.Second
+	}
+	if len(h) != 6 && !mustHit {
 		for range c.Ops {
 			out = append(out, "bad-header")
 		}
@@ -638,13 +643,15 @@ func c04Impl(c lib.Case) []string {
 			id := atoi(f[1])
 			barIDs = append(barIDs, id)
 			recs := addRecs(f[2:])
-			if waitFor(reader.drained, 50*time.Millisecond) {
+			if waitFor(reader.drained, window) {
 				reader.request(uint64(id))
 				sr.HandleStartCheckpoint(ctx, uint64(id))
 				reader.push(c04Item{recs: recs, thenAwait: true})
+				res = "readbar-hit"
 			} else { // the loop is held up elsewhere: same read order through the reader-driven barrier
 				reader.push(c04Item{recs: recs})
 				reader.push(c04Item{isBar: true, barrier: uint64(id)})
+				res = "readbar-fallback"
 			}
 		case len(f) == 1 && f[0] == "wm":
 			expWms++
@@ -654,9 +661,10 @@ func c04Impl(c lib.Case) []string {
 			// the tick is a case of the loop's select, so the watermark comes after all records of the read
 			expWms++
 			recs := addRecs(f[1:])
-			if !waitFor(reader.drained, 50*time.Millisecond) {
+			if !waitFor(reader.drained, window) {
 				reader.push(c04Item{recs: recs})
 				reader.push(c04Item{isWm: true})
+				res = "midwm-fallback"
 				break
 			}
 			const mid = "rf.flush.mid"
@@ -665,8 +673,12 @@ func c04Impl(c lib.Case) []string {
 			hooks.next[mid] = true
 			hooks.mu.Unlock()
 			reader.push(c04Item{recs: recs})
-			waitFor(func() bool { return parkedAt(mid) > n0 || (reader.cursor() == before+len(recs) && reader.drained()) }, 50*time.Millisecond)
+			waitFor(func() bool { return parkedAt(mid) > n0 || (reader.cursor() == before+len(recs) && reader.drained()) }, window)
+			res = "midwm-fallback"
 			if reader.cursor() == before+len(recs) {
+				if parkedAt(mid) > n0 {
+					res = "midwm-hit" // the loop (or the timeout flusher, holding flushMu) sits in the flush; the read is not fully enqueued
+				}
 				reader.setAwaiting()
 				go func() {
 					reader.tick()
@@ -686,9 +698,10 @@ func c04Impl(c lib.Case) []string {
 			id := atoi(f[1])
 			barIDs = append(barIDs, id)
 			recs := addRecs(f[2:])
-			if !waitFor(reader.drained, 50*time.Millisecond) {
+			if !waitFor(reader.drained, window) {
 				reader.push(c04Item{recs: recs})
 				reader.push(c04Item{isBar: true, barrier: uint64(id)})
+				res = "midbar-fallback"
 				break
 			}
 			const mid = "rf.flush.mid"
@@ -697,8 +710,12 @@ func c04Impl(c lib.Case) []string {
 			hooks.next[mid] = true
 			hooks.mu.Unlock()
 			reader.push(c04Item{recs: recs})
-			waitFor(func() bool { return parkedAt(mid) > n0 || (reader.cursor() == before+len(recs) && reader.drained()) }, 50*time.Millisecond)
+			waitFor(func() bool { return parkedAt(mid) > n0 || (reader.cursor() == before+len(recs) && reader.drained()) }, window)
+			res = "midbar-fallback"
 			if reader.cursor() == before+len(recs) {
+				if parkedAt(mid) > n0 {
+					res = "midbar-hit"
+				}
 				reader.setAwaiting()
 				reader.request(uint64(id))
 				sr.HandleStartCheckpoint(ctx, uint64(id))
@@ -731,7 +748,7 @@ func c04Impl(c lib.Case) []string {
 		case len(f) == 2 && f[0] == "await":
 			// coverage only: give a goroutine up to 50 ms to reach the hook point it is meant to be parked at
 			if l, ok := c04Labels[f[1]]; ok {
-				for t0 := time.Now(); time.Since(t0) < 50*time.Millisecond; time.Sleep(50 * time.Microsecond) {
+				for t0 := time.Now(); time.Since(t0) < window; time.Sleep(50 * time.Microsecond) {
 					hooks.mu.Lock()
 					n := len(hooks.parked[l])
 					armed := hooks.next[l]
@@ -959,7 +976,7 @@ func propC04() *lib.Prop {
 	return &lib.Prop{
 		ID:   "C04",
 		Corr: "Model/Runner.lean (Runner.project of the read order; every schedule by C04.per_operator_stream/delivery_complete) ↔ real sourcerunner.SourceRunner + operatorCluster + batchingOperator + ReorderFetcher driven in-process with a scripted SourceReader, gated KeyEventBatch, recording operators with back-pressure, fireable batch timers and verifhook parking",
-		Rule: "cases = read order (records with keys from a small set, 0-3 keyed events each, barriers; checkpoint requests also arrive while a read is being fetched and in the middle of enqueueing a multi-record read; for every barrier the reader's cursor at Checkpoint() is compared with what was delivered before the barrier) + schedule stirring (timer expiries incl. stale, out-of-order KeyEventBatch completions, operator back-pressure, flushers parked at rf.flush.enter/rf.flush.mid/batcher.flush); 1-3 operators, batch size 0-4; compared: the complete HandleEventBatch stream of every operator; non-trivial = at least 2 keyed events with the same key, a timer expiry and an out-of-order completion or a parked flusher",
+		Rule: "cases = read order (records with keys from a small set, 0-3 keyed events each, barriers; checkpoint requests also arrive while a read is being fetched and in the middle of enqueueing a multi-record read; for every barrier the reader's cursor at Checkpoint() is compared with what was delivered before the barrier; whether a timing op really hit its window is reported per op as impl:readbar-hit / -fallback etc. in the distribution, and the fixed `musthit` cases fail unless every such op hits) + schedule stirring (timer expiries incl. stale, out-of-order KeyEventBatch completions, operator back-pressure, flushers parked at rf.flush.enter/rf.flush.mid/batcher.flush); 1-3 operators, batch size 0-4; compared: the complete HandleEventBatch stream of every operator; non-trivial = at least 2 keyed events with the same key, a timer expiry and an out-of-order completion or a parked flusher",
 		NumCases: func(tier string) int {
 			if tier == "thorough" {
 				return 2500
@@ -974,9 +991,9 @@ func propC04() *lib.Prop {
 				c04BackPressure(lib.NewRng(41), 8), c04BackPressure(lib.NewRng(42), 8), c04BackPressure(lib.NewRng(43), 8),
 				c04Ckpt(lib.NewRng(51), 12), c04Ckpt(lib.NewRng(52), 12),
 				// a checkpoint request in the middle of a 4-record read (batch size 2): the barrier belongs after record 4
-				{Header: "M C04 1 8 2 1", Tags: []string{"ckpt"}, Ops: []string{"free", "midbar 1 1:61:1 2:61:1 3:61:1 4:61:1", "read 5:61:1", "end"}},
+				{Header: "M C04 1 8 2 1 musthit", Tags: []string{"ckpt", "musthit"}, Ops: []string{"free", "midbar 1 1:61:1 2:61:1 3:61:1 4:61:1", "read 5:61:1", "midwm 6:61:1 7:61:1 8:61:1", "midbar 2 9:61:1 10:61:1 11:61:1", "end"}},
 				// requests arriving while a read is being fetched, several in a row
-				{Header: "M C04 2 8 2 1", Tags: []string{"ckpt"}, Ops: []string{"free", "readbar 1 1:61:1", "readbar 2 2:62:1 3:61:1", "readbar 3 4:61:1", "readbar 4 5:62:1", "readbar 5 6:61:1 7:61:1", "readbar 6 8:62:1", "end"}},
+				{Header: "M C04 2 8 2 1 musthit", Tags: []string{"ckpt", "musthit"}, Ops: []string{"free", "readbar 1 1:61:1", "readbar 2 2:62:1 3:61:1", "readbar 3 4:61:1", "readbar 4 5:62:1", "readbar 5 6:61:1 7:61:1", "readbar 6 8:62:1", "end"}},
 				{Header: "M C04 2 8 2 1", Tags: []string{"watermark"}, Ops: []string{"free", "read 1:61:1", "wm", "read 2:62:1 3:61:1", "midwm 4:61:1 5:61:1 6:62:1", "read 7:61:1", "wm", "barrier 1", "end"}},
 				{Header: "M C04 1 4 1 1", Tags: []string{"basic"}, Ops: []string{"read 1:61:1 2:62:2 3:61:0", "barrier 1", "read 4:61:1", "end"}},
 			}
